@@ -356,7 +356,8 @@ def run_case(spec, inputs=None):
                 eq, ties, detail = tables_equal(res0, res)
                 out["counters"]["tie_cells"] = out["counters"].get("tie_cells", 0) + ties
                 if not eq:
-                    lam = "lambda>0" if call["model_parameters"].get("lambda_") else "lambda=0"
+                    lam = ("lambda>0" if call["model_parameters"].get("lambda_") else "lambda=0") + (
+                        "/weight-ratio-below-1e-5" if el.meta.get("extreme_weights") else "")
                     out["violations"].append(dict(key=f"C20/tables-differ-from-fault-free-run/{lam}",
                                                   msg=f"{where} fit #{k} ({kind}): {detail}",
                                                   witness=dict(position=k, kind=kind)))
@@ -394,7 +395,8 @@ def run_case(spec, inputs=None):
                     continue
                 eq, ties, detail = tables_equal(res0, res)
                 if not eq:
-                    lam = "lambda>0" if call["model_parameters"].get("lambda_") else "lambda=0"
+                    lam = ("lambda>0" if call["model_parameters"].get("lambda_") else "lambda=0") + (
+                        "/weight-ratio-below-1e-5" if el.meta.get("extreme_weights") else "")
                     out["violations"].append(dict(key=f"C20/tables-differ-from-fault-free-run/{lam}",
                                                   msg=f"{call['pi_method']}/{role}: solve #{n_} of {S} failed ({kind}) below "
                                                       f"fit(): {detail}", witness=dict(solve=n_, kind=kind)))
@@ -422,7 +424,8 @@ def run_case(spec, inputs=None):
                     continue
                 eq, ties, detail = tables_equal(res0, res)
                 if not eq:
-                    lam = "lambda>0" if call["model_parameters"].get("lambda_") else "lambda=0"
+                    lam = ("lambda>0" if call["model_parameters"].get("lambda_") else "lambda=0") + (
+                        "/weight-ratio-below-1e-5" if el.meta.get("extreme_weights") else "")
                     out["violations"].append(dict(key=f"C20/tables-differ-from-fault-free-run/{lam}",
                                                   msg=f"{call['pi_method']}: faults at fits {pair}: {detail}",
                                                   witness=dict(positions=pair)))
